@@ -60,7 +60,8 @@ func (r *srun) handle(ctx context.Context, item int) {
 	r.mu.Unlock()
 	select {
 	case <-gate:
-	case <-ctx.Done(): // v1: Handle honours its context
+	case <-ctx.Done(): // v1: Handle honours its context - but takes a moment to wind down
+		time.Sleep(7 * time.Nanosecond)
 	}
 	r.mu.Lock()
 	for i, it := range r.running {
